@@ -23,8 +23,8 @@
        forall ifs h wakes, wf_history h = true -> ~ Known_C04 h ->
          chk_C04 ifs h wakes (map obs_of (run_history ifs h)) = true ). *)
 From Coq Require Import List NArith Bool.
-From Mdns Require Import Res Bytes Rec Wire Txt Cache Browser C03Spec BrowserSpec CacheProofs BrowserStepProofs
-  SpecTrackProofs BrowserExamples.
+From Mdns Require Import Res Bytes Rec Wire Txt Cache Browser C03Spec BrowserSpec BrowserKnown CacheProofs
+  CacheInvProofs BrowserStepProofs SpecTrackProofs C05SafetyProofs C04StepProofs C04ScheduleProofs BrowserExamples.
 Import ListNotations.
 Open Scope N_scope.
 
@@ -141,6 +141,80 @@ Theorem C04_spec_cache_is_model_cache : forall ifs h,
   tracks (model_after ifs init_st h) (spec_after ifs init_spec h).
 Proof. exact spec_tracks_model. Qed.
 
+(* ---- round 4: one message, every reachable state ---------------------------------------------------
+
+   For every state whose cache satisfies the C03 invariant for a log L (every reachable state:
+   C03_cache_invariant) and every response message whose records keep the log inside a log Lf
+   free of the classes known_ptr_variant / known_srv_targets: if the type is browsed on ch and,
+   after the records of the message are cached, some PTR ty -> instance has more than one second
+   left, the message cached a new (or revived) record of the instance, and the instance is
+   strongly alive (PTR, SRV, address of the SRV's host with more than one second left), then
+   this handle_response emits ServiceResolved for it on ch - exactly one.
+   _partial: this is the per-message core of chk_C04's completeness clause; NOT lifted to the
+   checker over histories (the checker's bookkeeping of "up"/"found" per channel, the follow-up
+   obligations and the order of events inside an iteration are not related to the model state
+   by a proved invariant); the statement
+       forall ifs h wakes, wf_history h = true -> ~ Known_C04 h ->
+         chk_C04 ifs h wakes (map obs_of (run_history ifs h)) = true
+   stays monitor-checked on every generated history. *)
+Theorem C04_completing_response_resolves_partial : forall Lf,
+  known_ptr_variant Lf = false -> known_srv_targets Lf = false -> ptr_names_ok Lf = true ->
+  forall L s now ifx m ty ch,
+  Inv L (s_cache s) -> incl (L ++ map (mkDlv now ifx) (msg_records m)) Lf ->
+  q_get ty (s_q s) = Some ch ->
+  let '(c1, _, changes) := hr_records (s_cache s) now ifx (s_q s) (for_us (s_q s) (m_answers m)) (msg_records m) in
+  forall ptrs p,
+    In (ty, ptrs) (c_ptr c1) -> In p ptrs -> expires_soon p now = false ->
+    In (alias_of (e_rr p)) (updated_of c1 changes) ->
+    alive_strong c1 now ty (alias_of (e_rr p)) = true ->
+    count_resolved ch ty (alias_of (e_rr p)) (snd (handle_response s now ifx m)) = 1%nat
+    /\ In (OEvt ch (EResolved (resolve_from_cache c1 now ty (alias_of (e_rr p))))) (snd (handle_response s now ifx m)).
+Proof. exact completing_response_resolves. Qed.
+
+(* at most one ServiceResolved per (channel, type, instance) from one resolve_updated_instances,
+   outside the class "PTR variants" *)
+Theorem C04_at_most_one_resolved : forall Lf, known_ptr_variant Lf = false ->
+  forall L s now updated ch ty inst,
+  Inv L (s_cache s) -> incl L Lf ->
+  (count_resolved ch ty inst (snd (resolve_updated s now updated)) <= 1)%nat.
+Proof. exact resolve_updated_at_most_one. Qed.
+
+(* non-vacuity: the announcement of ex_hist yields exactly one ServiceResolved in its iteration *)
+Example C04_one_resolved_example :
+  map (count_resolved 1 n_ty n_inst) (run_history ex_ifs ex_hist) = [0; 1; 1; 0; 0; 0]%nat.
+Proof. vm_compute. reflexivity. Qed.
+
+(* Follow-up schedule at history level (no class excluded): after every loop iteration of every
+   history in which time does not run backwards, every follow-up retransmission the model holds
+   is try 1, 2 or 3 and is due strictly after, and at most 500 ms after, the time of that
+   iteration (last_now h).  With C04_followup_step: a chain asks at most three times, every try
+   within 500 ms of the iteration that scheduled it - at +500, +1000, +1500 when timer-exact. *)
+Theorem C04_followup_schedule_invariant : forall ifs h,
+  wf_history h = true -> h <> [] ->
+  Forall (fun x => match snd x with
+                   | RResolve _ n => last_now h < fst x /\ fst x <= last_now h + 500 /\ 1 <= n /\ n <= 3
+                   | RVerify _ _ => True
+                   end) (s_retrans (model_after ifs init_st h)).
+Proof. exact followup_schedule_invariant. Qed.
+
+(* non-vacuity: PTR only; after the first try (iteration at +600) the second one is scheduled *)
+Example C04_followup_schedule_example :
+  s_retrans (model_after ex_ifs init_st (firstn 3 ex_follow)) = [(T0 + 1100, RResolve n_inst 2)]
+  /\ last_now (firstn 3 ex_follow) = T0 + 600.
+Proof. split; vm_compute; reflexivity. Qed.
+
+(* one witness per known class *)
+Theorem C04_known_dotted_witness :
+  known_dotted ref4_hist = true /\ known_dotted ex_hist = false
+  /\ chk_C04 ex_ifs ref4_hist (ex_wakes ref4_hist) (map obs_of (run_history ex_ifs ref4_hist)) = false.
+Proof. exact dotted_witness. Qed.
+
+Theorem C04_known_last_second_refresh_witness :
+  wf_history lastsec_hist = true
+  /\ safe_class ex_ifs lastsec_hist = true
+  /\ existsb is_refresh_only (viol_C04 ex_ifs lastsec_hist (ex_wakes lastsec_hist) (map obs_of (run_history ex_ifs lastsec_hist))) = true.
+Proof. exact last_second_refresh_witness. Qed.
+
 (* The history-level statement is false of the faithful model: a PTR to an instance whose first
    label is "a.b"; the follow-up questions ask for the labels a, b, _http, ... which no PTR
    points to (finding C04-D20-dotted-label-followup). *)
@@ -193,6 +267,13 @@ Print Assumptions C04_followup_ends.
 Print Assumptions C04_followup_not_doubled.
 Print Assumptions C04_followup_over_allows_new_round.
 Print Assumptions C04_spec_cache_is_model_cache.
+Print Assumptions C04_completing_response_resolves_partial.
+Print Assumptions C04_at_most_one_resolved.
+Print Assumptions C04_one_resolved_example.
+Print Assumptions C04_followup_schedule_invariant.
+Print Assumptions C04_followup_schedule_example.
+Print Assumptions C04_known_dotted_witness.
+Print Assumptions C04_known_last_second_refresh_witness.
 Print Assumptions C04_found_and_resolved_refuted.
 Print Assumptions C04_example_followup.
 Print Assumptions C04_example_lifecycle.
